@@ -7,7 +7,10 @@ import (
 	"context"
 	"net"
 	"net/http"
+	"reflect"
+	"unsafe"
 
+	verif "github.com/zishang520/engine.io/v2/internal/zzverif"
 	wt "github.com/zishang520/webtransport-go"
 )
 
@@ -34,4 +37,18 @@ var AcceptedStream wt.Stream
 //verif:model (*github.com/zishang520/webtransport-go.Session).AcceptStream
 func mWtAcceptStream(s *wt.Session, ctx context.Context) (wt.Stream, error) {
 	return AcceptedStream, nil
+}
+
+// StubSession gives a Conn on an in-memory stream a session object whose CloseWithError
+// is harmless: symbolically the model above ignores its receiver; natively a zero Session
+// is marked as already closed (its unexported closeErr is set), so the library's
+// CloseWithError returns at once instead of touching the missing QUIC stream.
+func StubSession() *wt.Session {
+	if verif.Symbolic() {
+		return nil
+	}
+	s := &wt.Session{}
+	f := reflect.ValueOf(s).Elem().FieldByName("closeErr")
+	reflect.NewAt(f.Type(), unsafe.Pointer(f.UnsafeAddr())).Elem().Set(reflect.ValueOf(error(&modelErr{"session closed (stub)"})))
+	return s
 }
